@@ -55,6 +55,7 @@ class Builder:
         self.gt = gt
         self.rnd = rnd
         self.nodes = {}  # uuid hex -> object
+        self.aux_values = {}  # (holder uuid hex, key) -> (value object, type)
         self.stats = stats if stats is not None else {}
 
     def st(self, key):
@@ -320,6 +321,9 @@ class Builder:
             v = from_neutral(codecmon.from_json(a["pv"]), t, self.nodes,
                              self.rnd, self.gt)
             ad = self.gt.AuxData(v, a["type"])
+            # the caller-side reference to the value object (a caller may
+            # keep editing the container it handed to AuxData)
+            self.aux_values[(holder.uuid.hex, k)] = (v, t)
             if via_ctor_dict is not None:
                 via_ctor_dict[k] = ad
             else:
@@ -470,10 +474,117 @@ class Builder:
         return ir
 
 
-def build(sp, gt, rnd, stats=None):
+def build(sp, gt, rnd, stats=None, want_builder=False):
     b = Builder(gt, rnd, stats)
     ir = b.build(sp)
+    if want_builder:
+        return ir, b.nodes, b
     return ir, b.nodes
+
+
+def mutate_live(rnd, gt, sp, nodes, aux_values, count):
+    """Edit a live, already saved IR through public attributes and through
+    references the caller kept (AuxData containers); returns the updated
+    spec and the labels of the edits made."""
+    import copy
+    from . import auxgen
+    sp = copy.deepcopy(sp)
+    done = []
+    E = contract.ENUMS
+
+    def holder_spec(uuid_hex):
+        if sp["uuid"] == uuid_hex:
+            return sp
+        for m in sp["modules"]:
+            if m["uuid"] == uuid_hex:
+                return m
+
+    class P:  # minimal pool for auxgen over this spec's nodes
+        def __init__(self):
+            self.gt = gt
+
+        def pick(self, r):
+            import uuid as _u
+            return _u.UUID(int=r.getrandbits(128))
+
+    for _ in range(count):
+        k = rnd.randrange(9)
+        if k <= 2 and aux_values:
+            (hu, key), (v, t) = rnd.choice(sorted(
+                aux_values.items(), key=lambda kv: kv[0]))
+            name, kids = t
+            try:
+                if name == "sequence" and isinstance(v, list):
+                    v.append(auxgen.gen_value(rnd, kids[0], P()))
+                elif name == "set" and isinstance(v, set):
+                    v.add(auxgen.gen_value(rnd, kids[0], P(), True))
+                elif name == "mapping" and isinstance(v, dict):
+                    v[auxgen.gen_value(rnd, kids[0], P(), True)] = \
+                        auxgen.gen_value(rnd, kids[1], P())
+                else:
+                    continue
+            except TypeError:
+                continue
+            holder_spec(hu)["aux"][key]["pv"] = codecmon.to_json(
+                refcodec.neutral(v, t))
+            done.append("aux-container-edited-through-kept-reference")
+        elif k == 3 and sp["modules"]:
+            m = rnd.choice(sp["modules"])
+            m["name"] = m["name"] + "~"
+            nodes[m["uuid"]].name = m["name"]
+            done.append("module.name")
+        elif k == 4:
+            ys = [y for m in sp["modules"] for y in m["symbols"]]
+            if ys:
+                y = rnd.choice(ys)
+                y["at_end"] = not y["at_end"]
+                y["name"] = y["name"] + "2"
+                nodes[y["uuid"]].at_end = y["at_end"]
+                nodes[y["uuid"]].name = y["name"]
+                done.append("symbol.name+at_end")
+        elif k == 5:
+            ivs = [bi for m in sp["modules"] for s_ in m["sections"]
+                   for bi in s_["intervals"]]
+            if ivs:
+                bi = rnd.choice(ivs)
+                bi["address"] = rnd.choice([None, 0, 77, (1 << 64) - 1])
+                nodes[bi["uuid"]].address = bi["address"]
+                done.append("interval.address")
+        elif k == 6:
+            bs = [b for m in sp["modules"] for s_ in m["sections"]
+                  for bi in s_["intervals"] for b in bi["blocks"]]
+            if bs:
+                b = rnd.choice(bs)
+                b["size"] = rnd.choice([0, 1, 9, 1 << 40])
+                b["offset"] = rnd.choice([0, 3, 1 << 33])
+                nodes[b["uuid"]].size = b["size"]
+                nodes[b["uuid"]].offset = b["offset"]
+                done.append("block.size+offset")
+        elif k == 7:
+            es = [(bi, off) for m in sp["modules"] for s_ in m["sections"]
+                  for bi in s_["intervals"] for off in bi["exprs"]]
+            if es:
+                bi, off = rnd.choice(es)
+                e = bi["exprs"][off]
+                new = rnd.choice([a for a in sorted(
+                    E["SymAttribute"].values()) if a not in e["attrs"]])
+                e["attrs"].append(new)
+                nodes[bi["uuid"]].symbolic_expressions[int(off)] \
+                    .attributes.add(getattr(gt.SymbolicExpression.Attribute,
+                                            new))
+                done.append("expr.attributes")
+        elif k == 8:
+            ss = [s_ for m in sp["modules"] for s_ in m["sections"]]
+            if ss:
+                s_ = rnd.choice(ss)
+                miss = [f for f in sorted(E["SectionFlag"].values())
+                        if f not in s_["flags"]]
+                if miss:
+                    f = rnd.choice(miss)
+                    s_["flags"].append(f)
+                    nodes[s_["uuid"]].flags.add(getattr(gt.Section.Flag, f))
+                    done.append("section.flags")
+    return sp, done
 
 
 # ---------------------------------------------------------------------------
